@@ -11,6 +11,21 @@ TEXT = {
   level_text="Generated scripts of sends and half-closes in both directions, with generated chunking, segmentation, pacing and address forms, run through the real StreamServe/StreamHandler over loopback TCP; the bytes and EOFs seen by the raw client (decrypted with an independent codec) and by the scripted target are compared with two FIFO byte streams with EOF markers.",
   level_note="Loopback only; scheduler/kernel interleavings are sampled, not enumerated; SDK crypto is trusted only to the extent that an independent codec interoperates with it.",
  ),
+ "C03": dict(
+  technique="model-based property testing (rapid): generated datagram histories vs. an association-table model, independent packet codec as decryption reference",
+  level_text="Generated datagram histories (valid, wrong-key, truncated, flipped, random, bad-address) from several client sockets through the real PacketHandler on real UDP sockets to IPv4/IPv6 targets; each forwarded payload, each reply header/salt/payload and each non-forwarding is checked against a model association table whose decryption decisions come from an independent codec. Must-not-forward is decided by observation up to a fence datagram.",
+  level_note="Loopback only; a forbidden datagram is only reported when observed; AEAD strength assumed.",
+ ),
+ "C04": dict(
+  technique="model-based property testing (rapid) of the NAT table over real UDP sockets, incl. generated expiries",
+  level_text="Many-client histories (shared IPs, shared keys, several targets, unsolicited senders, expiries with short NAT timeouts): the source address seen by targets must be stable per client and never shared between live associations, and every datagram sent to a client's outbound address must reach that client and no other.",
+  level_note="Liveness of an association is read from the removal report (an observation); operations are kept 0.6 x timeout away from the expiry instant, a raced case is counted inconclusive.",
+ ),
+ "C16": dict(
+  technique="property-based testing (rapid): recorded metrics call log vs. sizes observed on the client and target sockets",
+  level_text="The same generated UDP histories; after shutdown the UDPMetrics/UDPConnMetrics call log is compared per association with what the sockets saw: one add (with the authenticating id), exactly one remove and nothing after it, every datagram on the association once with wire size, forwarded payload size and status, every reply once with payload and wire size.",
+  level_note="Sizes are those measured by the harness sockets; statuses are compared for OK / ERR_CIPHER / ERR_READ_ADDRESS outcomes the generator produces.",
+ ),
 }
 def _na():
     from checks_table import CHECKS
